@@ -226,7 +226,8 @@ def gen_C05(tier, rng):
             cfg["maxiter"] = min(cfg["maxiter"], 10)
         yield dict(spec=_spec(rng, gen.ALL, nmax=8 if mode == "callable" else 5), cfg=cfg, mode=mode,
                    chain=[int(v) for v in rng.integers(1, 6, size=int(rng.integers(0, 5)))],
-                   scaler=(float(10 ** rng.uniform(-3, 3)) if rng.random() < 0.25 else None), scribble=bool(rng.random() < 0.3))
+                   scaler=(float(10 ** rng.uniform(-3, 3)) if rng.random() < 0.25 else None), scribble=bool(rng.random() < 0.3),
+                   workbuf=bool(mode == "callable" and rng.random() < 0.4))
 
 
 def eval_C05(case):
@@ -254,7 +255,7 @@ def eval_C05(case):
         ex = dict(extra)
         if ck is not None:
             ex["checkpoint"] = copy.deepcopy(ck)
-        R = run_instrumented(Pr, c, jac=mode, extra=ex, scribble=case.get("scribble", False))
+        R = run_instrumented(Pr, c, jac=mode, extra=ex, scribble=case.get("scribble", False), workbuf=case.get("workbuf", False))
         if R.exc is not None:
             return _out(f"run raised {type(R.exc).__name__}: {R.exc}", signature="C05 exception " + type(R.exc).__name__)
         fail = c05_pred(R, P, scale=s or 1.0, nfev0=nf0, njev0=nj0, callable_grad=cg)
@@ -267,7 +268,7 @@ def eval_C05(case):
         Pr.x0 = ck.x.copy()
     return _out(fail, key=(case["spec"]["pseed"], str(mode), len(chain)), nontrivial=R.res is not None and R.res.nit >= 1,
                 sample=dict(case=case), signature="C05 " + (fail or "")[:50], mode=str(mode), chain_len=len(chain), scaler=s is not None,
-                scribble=case.get("scribble", False))
+                scribble=case.get("scribble", False), workbuf=case.get("workbuf", False))
 
 
 # ------------------------------------------------------------------ C18
